@@ -1,0 +1,108 @@
+//go:build verif
+
+// Contracts for package common, read by /verif/gocv (comment-only file; see /verif/DESIGN.md).
+package common
+
+//@ spec le16(b []byte, p uint64) uint16 = uint16(b[p]) | uint16(b[p+1])<<8
+//@ spec le32(b []byte, p uint64) uint32 = uint32(b[p]) | uint32(b[p+1])<<8 | uint32(b[p+2])<<16 | uint32(b[p+3])<<24
+//@ spec le64(b []byte, p uint64) uint64 = uint64(le32(b, p)) | uint64(le32(b, p+4))<<32
+//@ spec remaining(self *ZeroCopySource) uint64 = uint64(len(self.s)) - self.off
+
+//@ invariant-of *ZeroCopySource :: self.off <= uint64(len(self.s))
+
+//@ func SafeSub
+//@   property C01
+//@   ensures r0 == x - y
+//@   ensures r1 <==> x < y
+
+//@ func SafeAdd
+//@   property C01
+//@   ensures r0 == x + y
+//@   ensures r1 <==> U128(x) + U128(y) > 18446744073709551615
+
+//@ func SafeMul
+//@   property C01
+//@   ensures r0 == x * y
+//@   ensures (x == 0 || y == 0) ==> !r1
+//@   ensures (x != 0 && y != 0) ==> (r1 <==> y > 18446744073709551615 / x)
+//@   -- not claimed: r1 <==> U128(x)*U128(y) > MaxUint64 (64x64 multiply-vs-divide equivalence
+//@   -- does not discharge within the time limit on any installed solver)
+
+//@ func (*ZeroCopySource).Len
+//@   property C01
+//@   ensures result == remaining(self)
+
+//@ func (*ZeroCopySource).NextBytes
+//@   property C01
+//@   modifies self.off
+//@   ensures eof <==> n > old(remaining(self))
+//@   ensures !eof ==> self.off == old(self.off) + n && uint64(len(data)) == n
+//@   ensures !eof ==> forall i uint64 :: i < n ==> data[i] == old(self.s[self.off+i])
+//@   ensures eof ==> self.off == uint64(len(self.s))
+//@   ensures ref(data) == ref(self.s) && off(data) == off(self.s) + old(self.off)
+
+//@ func (*ZeroCopySource).Skip
+//@   property C01
+//@   modifies self.off
+//@   ensures eof <==> n > old(remaining(self))
+//@   ensures !eof ==> self.off == old(self.off) + n
+//@   ensures eof ==> self.off == uint64(len(self.s))
+
+//@ func (*ZeroCopySource).NextByte
+//@   property C01
+//@   modifies self.off
+//@   ensures eof <==> old(remaining(self)) == 0
+//@   ensures !eof ==> self.off == old(self.off) + 1 && data == old(self.s[self.off])
+//@   ensures eof ==> self.off == old(self.off) && data == 0
+
+//@ func (*ZeroCopySource).NextUint8
+//@   property C01
+//@   modifies self.off
+//@   ensures eof <==> old(remaining(self)) == 0
+//@   ensures !eof ==> self.off == old(self.off) + 1 && data == old(self.s[self.off])
+//@   ensures eof ==> self.off == old(self.off)
+
+//@ func (*ZeroCopySource).NextBool
+//@   property C01
+//@   modifies self.off
+//@   ensures eof <==> (old(remaining(self)) == 0 || old(self.s[self.off]) > 1)
+//@   ensures !eof ==> self.off == old(self.off) + 1 && (data <==> old(self.s[self.off]) == 1)
+
+//@ func (*ZeroCopySource).NextUint16
+//@   property C01
+//@   modifies self.off
+//@   ensures eof <==> old(remaining(self)) < 2
+//@   ensures !eof ==> self.off == old(self.off) + 2 && data == le16(old(self.s), old(self.off))
+//@   ensures eof ==> self.off == uint64(len(self.s))
+
+//@ func (*ZeroCopySource).NextUint32
+//@   property C01
+//@   modifies self.off
+//@   ensures eof <==> old(remaining(self)) < 4
+//@   ensures !eof ==> self.off == old(self.off) + 4 && data == le32(old(self.s), old(self.off))
+//@   ensures eof ==> self.off == uint64(len(self.s))
+
+//@ func (*ZeroCopySource).NextUint64
+//@   property C01
+//@   modifies self.off
+//@   ensures eof <==> old(remaining(self)) < 8
+//@   ensures !eof ==> self.off == old(self.off) + 8 && data == le64(old(self.s), old(self.off))
+//@   ensures eof ==> self.off == uint64(len(self.s))
+
+//@ func (*ZeroCopySource).NextInt16
+//@   property C01
+//@   modifies self.off
+//@   ensures eof <==> old(remaining(self)) < 2
+//@   ensures !eof ==> self.off == old(self.off) + 2 && uint16(data) == le16(old(self.s), old(self.off))
+
+//@ func (*ZeroCopySource).NextInt32
+//@   property C01
+//@   modifies self.off
+//@   ensures eof <==> old(remaining(self)) < 4
+//@   ensures !eof ==> self.off == old(self.off) + 4 && uint32(data) == le32(old(self.s), old(self.off))
+
+//@ func (*ZeroCopySource).NextInt64
+//@   property C01
+//@   modifies self.off
+//@   ensures eof <==> old(remaining(self)) < 8
+//@   ensures !eof ==> self.off == old(self.off) + 8 && uint64(data) == le64(old(self.s), old(self.off))
